@@ -1,0 +1,68 @@
+//go:build verif
+
+package multicast
+
+import (
+	"time"
+
+	"github.com/gauss-project/aurorafs/pkg/boson"
+	"github.com/gauss-project/aurorafs/pkg/multicast/model"
+)
+
+// Verification hooks (build tag `verif` only): synchronous access to the unexported group
+// membership transitions and to the package-global de-duplication cache.  Add-only; with the
+// tag off this file is not compiled.
+
+// VerifMaxKnownPeers exports the pruneKnown bound.
+const VerifMaxKnownPeers = maxKnownPeers
+
+// VerifGroup wraps a *Group of a Service.
+type VerifGroup struct{ g *Group }
+
+// VerifNewGroup is newGroup (stores the group under gid, replacing an existing one).
+func (s *Service) VerifNewGroup(gid boson.Address, o model.ConfigNodeGroup) *VerifGroup {
+	return &VerifGroup{g: s.newGroup(gid, o)}
+}
+
+// VerifGetGroup is getGroup (nil when the service has no group object for gid).
+func (s *Service) VerifGetGroup(gid boson.Address) *VerifGroup {
+	g := s.getGroup(gid)
+	if g == nil {
+		return nil
+	}
+	return &VerifGroup{g: g}
+}
+
+// quiet makes notifyPeers publish immediately instead of sleeping out the 500 ms rate limit.
+func (v *VerifGroup) quiet() { v.g.groupPeersLastSend = time.Time{} }
+
+func (v *VerifGroup) Add(peer boson.Address, keep bool) {
+	v.quiet()
+	v.g.add(peer, keep)
+}
+
+func (v *VerifGroup) Remove(peer boson.Address, intoKnown bool) {
+	v.quiet()
+	v.g.remove(peer, intoKnown)
+}
+
+func (v *VerifGroup) PruneKnown() { v.g.pruneKnown() }
+
+// Lists returns connectedPeers, keepPeers, knownPeers in slice order.
+func (v *VerifGroup) Lists() (connected, kept, known []boson.Address) {
+	return v.g.connectedPeers.BinPeers(0), v.g.keepPeers.BinPeers(0), v.g.knownPeers.BinPeers(0)
+}
+
+func (v *VerifGroup) SetOption(o model.ConfigNodeGroup) { v.g.update(o) }
+func (v *VerifGroup) Option() model.ConfigNodeGroup      { return v.g.option }
+func (v *VerifGroup) SetMulticastSub(on bool)            { v.g.multicastSub = on }
+
+// VerifResetCache empties the package-global cache (Multicast_/onMulticast_ de-duplication
+// keys and the notifyGroupPeers snapshot).
+func VerifResetCache() { _ = cache.Clear(cacheCtx) }
+
+// VerifSeen reports whether the two de-duplication keys of (origin,id) are present.
+func VerifSeen(key string) bool {
+	has, _ := cache.Contains(cacheCtx, key)
+	return has
+}
